@@ -1,8 +1,8 @@
 #!/verif/.venv/bin/python
 # Replay of a solver counterexample against the unmodified code (no shims).
-# property=C15 kernel=eomcfg label=k1:option_is_documented_lightshift
+# property=C15 kernel=eomcfg label=k1:switching_beams_match_result
 import sys
-sys.path[:0] = ["/repo/pulser-core", "/repo/pulser-simulation", "/verif"]
+sys.path[:0] = ['/repo' + "/pulser-core", '/repo' + "/pulser-simulation", "/verif"]
 from symx.replay import replay
-sys.exit(replay(check='checks.c15', kernel='eomcfg', shape={'cfg': {'lim': 'R', 'ctrl': ['B', 'R'], 'multi': False}},
-                assignment={'amp_on': '4137/1024', 'detuning_on': '-517/256', 'optimal_detuning_off': '1/1024'}, label='k1:option_is_documented_lightshift'))
+sys.exit(replay(check='checks.c15', kernel='eomcfg', shape={'cfg': {'lim': 'R', 'ctrl': ['R', 'B'], 'cb': 2.0, 'cr': 0.5}},
+                assignment={'amp_on': '1/1024', 'detuning_on': '1/1', 'optimal_detuning_off': '0/1'}, label='k1:switching_beams_match_result'))
